@@ -414,7 +414,8 @@ fn step_facts(node_type: &str, d: &str) -> Value {
 }
 
 /// everything `Plan::explain` states that is determined by the plan:
-/// [steps, [barriers, total_ops, stateless_ops, source_size|null], suggested_partitions|null, opts]
+/// [steps, [barriers, total_ops, stateless_ops, source_size|null], suggested_partitions|null, opts, cpus]
+///   cpus = num_cpus::get(), the machine fact the suggestion is computed from
 ///   step = [step, node_type, is_barrier, cost_hint, facts]
 ///   opt  = ["fused", before, after, ops] | ["reordered", ops, by_cost] | ["lifted", removed_barrier]
 ///        | ["dropped", count] | ["parts", source_len|null, partitions]
@@ -475,7 +476,8 @@ fn explain_json(plan: &Plan) -> Value {
         steps,
         [barriers, total_ops, e.cost_estimate.stateless_ops, e.cost_estimate.source_size],
         e.suggested_partitions,
-        opts
+        opts,
+        num_cpus::get()
     ])
 }
 /// explain of a bare chain (Plan's fields are public)
